@@ -1,5 +1,6 @@
 """C08 — prepared-statement caching is invisible to clients."""
 from mirlib import *
+from common import refused_batch_forget_finding
 from common import parse_cache_key_gap
 
 H = "pgcat::client::Client::handle::{closure#0}"
@@ -282,11 +283,8 @@ def run(ctx):
         r4.check(c.body.name in allowed.get(m, set()) or (m in ("get", "contains_key") and c.body.name.startswith("pgcat::client::Client::")), "%s@%s" % (m, c.body.name.replace("pgcat::client::", "")), "HashMap::%s on Client.prepared_statements" % m,
                  "unexpected HashMap::%s on Client.prepared_statements in %s" % (m, c.body.name), c.where())
         if c.body.name.startswith("pgcat::client::Client::forget_buffered_prepared_statements") and m in ("remove", "retain"):
-            # a refused batch forgets the names *it* registered: the key comes from the buffered Parse message's own name, not from the
-            # rewritten name (which every statement with the same text shares) - D52
-            src = {o.call.name for o in origins(c.body, c.args[1], taint=True) if o.kind == "call"} if m == "remove" and len(c.args) > 1 else set()
-            r4.check("pgcat::messages::Parse::get_name" in src, "refused-batch-forgets-by-client-name", "the refused batch's names are removed by the name the client gave them (Parse::get_name of the buffered message)",
-                     "forget_buffered_prepared_statements matches on the rewritten PGCAT_n name: an earlier, acknowledged statement of the client with the same text is forgotten together with the refused batch - its next Bind is answered with `does not exist` and the client is disconnected", c.where())
+            okf_, okm_, fm_ = refused_batch_forget_finding(F, c, HM)
+            r4.check(okf_, "refused-batch-forgets-by-client-name", okm_, fm_, c.where())
         if m == "remove" and len(c.args) > 1:
             # statements and portals are two name spaces: Close('P', name) closes a portal, the statement of the same name stays the client's
             kv = set()
